@@ -21,9 +21,16 @@ open Rbgp.Wire Rbgp.Wire.Spec
 
 /-- BGP: for every codec, profile and every way the bytes arrive, the C03 checker accepts the records
     produced by the receive loop. -/
-theorem check_run_ok_bgp (dec : HypDec) (hd : dec.NP) (p : Profile) (c : Codec) (chunks : List Bytes) :
+theorem check_run_ok_bgp (dec : HypDec) (hd : dec.NP) (hde : dec.E3) (p : Profile) (c : Codec) (chunks : List Bytes) :
     checkBgpCase c.maxLen chunks ((bgpStream dec p c [] chunks).map srecOf) = .ok :=
-  check_bgp_ok hd p c chunks
+  check_bgp_ok hd hde p c chunks
+
+/-- the error class alone: whenever `try_parse` fails, the NOTIFICATION code fits the frame at the front of the
+    buffer (bad header length ⇒ 1/2; unknown type ⇒ 1/3; OPEN ⇒ code 2; UPDATE ⇒ code 3; ROUTE-REFRESH ⇒ code 7 or
+    1/2; NOTIFICATION / KEEPALIVE ⇒ 1/2).  `dec.E3`: the decoders outside the model raise UPDATE errors only. -/
+theorem tryParse_error_class (dec : HypDec) (hde : dec.E3) (p : Profile) (c : Codec) (src : Bytes) (n : Nat) (e : Notif)
+    (h : tryParse dec p c src = .err n e) : errClassOk c.maxLen src e.code e.sub = true :=
+  tryParse_err_class hde h
 
 /-- the NLRI decoders transcribed in phase 2 (VPNv4/v6, labeled v4/v6 + MPLS label stack + RD, RTC, SR policy, EVPN
     types 1-5, flowspec v4/v6 and their VPN variants) never panic, in either profile; `rest` stands for the families
@@ -32,9 +39,14 @@ theorem nlri_phase2_total (p : Profile) (rest : HypDec) (hr : rest.NP) : (decP3 
   decP3_NP p hr
 
 /-- ... so the master theorem holds with them in place of the hypothesis -/
-theorem check_run_ok_bgp_phase2 (rest : HypDec) (hr : rest.NP) (p : Profile) (c : Codec) (chunks : List Bytes) :
+theorem check_run_ok_bgp_phase2 (rest : HypDec) (hr : rest.NP) (hre : rest.E3) (p : Profile) (c : Codec)
+    (chunks : List Bytes) :
     checkBgpCase c.maxLen chunks ((bgpStream (decP3 p rest) p c [] chunks).map srecOf) = .ok :=
-  check_bgp_ok (decP3_NP p hr) p c chunks
+  check_bgp_ok (decP3_NP p hr) (decP3_E3 p hre) p c chunks
+
+/-- the executable driver's decoder (`decP3 p noHypDec`) satisfies both hypotheses -/
+theorem driver_dec_ok (p : Profile) : (decP3 p noHypDec).NP ∧ (decP3 p noHypDec).E3 :=
+  ⟨decP3_NP p (fun _ _ _ _ => by simp [noHypDec]), decP3_E3 p noHypDec_E3⟩
 
 /-- RTR -/
 theorem check_run_ok_rtr (chunks : List Bytes) :
@@ -55,6 +67,23 @@ theorem tryParse_total (dec : HypDec) (hd : dec.NP) (p : Profile) (c : Codec) (s
 theorem parseMessage_total (dec : HypDec) (hd : dec.NP) (p : Profile) (c : Codec) (buf : Bytes) :
     parseMessage dec p c buf ≠ .panic :=
   Out.NP_iff.mp (parseMessage_NP hd p c buf)
+
+/-- below the capability level: `Capability::decode` with the `u8` / `u64` arithmetic of the source (`(len - 2) / 4`
+    behind `len % 4 == 2`; `hostlen as u64 + 2`, `2 + hostlen + domainlen` in `u64`) never overflows in either
+    profile and computes `capDecode` -/
+theorem cap_decode_widths (p : Profile) (code : Nat) (rest : Bytes) (len : Nat) :
+    capDecodeW p code rest len = .ok (capDecode code rest len) :=
+  capDecodeW_eq p code rest len
+
+/-- below the attribute level: `Attribute::decode` with every index of the source an explicit read (`b[pos + 1]`,
+    `b[start + 1]`, `b[pos + 2]`, `b[2..]`) never reads out of range and computes `attrDecode` -/
+theorem attr_decode_indexing (code : Nat) (data : Bytes) (len : Nat) (two : Bool) :
+    attrDecodeW code data len two = .ok (attrDecode code data len two) :=
+  attrDecodeW_eq code data len two
+
+/-- the widths matter: the FQDN length check done in `u8` (`hostlen + 2 > len`) panics a debug build on host
+    length 255 (and wraps to 1 in a release build, accepting a capability that is too short) -/
+theorem fqdn_u8_sum_panics : addU8 .debug 255 2 = .panic ∧ addU8 .release 255 2 = .ok 1 := ⟨rfl, rfl⟩
 
 /-! ## 2. a returned message consumed exactly the frame at the front of the buffer -/
 
